@@ -19,7 +19,7 @@ import (
 )
 
 var st = stat.New("C02",
-	"(type,tag,value) triples; exhaustive over all values of bool/int8/uint8 x 256 tags and int16/uint16 x the listed tags; rapid boundary-dense + uniform for int32/uint32/int64/float32/float64(bit patterns)/string(lengths around 0,255,256,65536, arbitrary bytes). Non-trivial = tag>=15, or value at a width boundary, or non-finite/negative-zero float, or string length>=255. Distinct = distinct (type,tag,value).",
+	"(type,tag,value) triples, and (sub-check stream) sequences of 1..6 such fields with ascending tags on one reader with optional reads of absent tags in between; exhaustive over all values of bool/int8/uint8 x 256 tags and int16/uint16 x the listed tags; rapid boundary-dense + uniform for int32/uint32/int64/float32/float64(bit patterns)/string(lengths around 0,255,256,65536, arbitrary bytes). Non-trivial = tag>=15, or value at a width boundary, or non-finite/negative-zero float, or string length>=255. Distinct = distinct (type,tag,value).",
 	"reference encoder refcodec.Enc written from the wire-format description is the byte oracle",
 	"position is observed through the public API only: a sentinel field written after the value must be the next field read and must be the last one")
 
@@ -368,6 +368,16 @@ func TestC02(t *testing.T) {
 	stat.Check(t, st, "string", stat.N(6000, 40000), drawString, func(c Case) *stat.Failure {
 		record(c)
 		return runCase(c)
+	})
+	stat.Check(t, st, "stream", stat.N(20000, 200000), drawStream, func(c StreamCase) *stat.Failure {
+		nt := false
+		for i, f := range c.Fields {
+			if len(c.Probes[i]) > 0 && f.Tag >= 14 && f.Tag <= 16 {
+				nt = true
+			}
+		}
+		st.CaseJSON(c, nt || len(c.Fields) >= 3, "stream", fmt.Sprintf("stream-fields-%d", len(c.Fields)))
+		return runStream(c)
 	})
 }
 
